@@ -1,10 +1,9 @@
 #!/bin/bash
 # usage: tools/seedrun.sh <diff> <ID> [tier]   — run a check against a scratch copy of /repo with a change applied
-set -e
 diff=$1; id=$2; tier=${3:-quick}
 S=/tmp/mrepo-$$
-rsync -a --delete --exclude /target --exclude /.git /repo/ $S/
-( cd $S && git init -q 2>/dev/null; git apply --unsafe-paths -p1 --directory=. "$diff" 2>/dev/null || patch -p1 -s < "$diff" )
+rsync -a --delete --exclude /target --exclude /.git /repo/ $S/ || exit 3
+( cd $S && patch -p1 -s < "$diff" ) || { echo "patch failed"; rm -rf $S; exit 3; }
 cd /verif
 VERIF_REPO=$S ./vc check $id --tier $tier; rc=$?
 rm -rf $S
